@@ -84,7 +84,7 @@ Definition buffer_inner_of (rec : bytes -> res (nat * bytes)) (cz : codecs) : Z 
 
 Fixpoint view_buffer (cz : codecs) (depth : nat) (validate : bool) (bs : bytes) : res (nat * bytes) :=
   match depth with
-  | O => Err EOutOfFuel
+  | O => Err EUnsupportedCompression
   | S d => buffer_loop (buffer_inner_of (view_buffer cz d validate) cz)
                        (debug_build cz) validate (S (length bs)) bs bs
   end.
@@ -372,7 +372,7 @@ Fixpoint ms_loop_seed1 (inner : Z -> bytes -> res (list message))
 Fixpoint from_slice_seed1 (cz : codecs) (depth : nat) (validate : bool) (req : Z) (bs : bytes)
   : res (list message) :=
   match depth with
-  | O => Err EOutOfFuel
+  | O => Err EUnsupportedCompression
   | S d =>
       ms_loop_seed1 (fun c v =>
                  if c =? COMPRESSION_GZIP then
